@@ -717,6 +717,22 @@ def gen_C04(c, rng, tier):
                 c.add(t, 'run', s2, classes=['serial_twin'], serial_of=cid, info=info, nontrivial=False)
 PROPS['C04']['mpi'] = True
 
+@prop('C18', 'runs of the three integrators with the built-in callback in the two writing modes, checkpoint texts from ~100 bytes to far above the 8 KiB stream buffer '
+      '(up to 2 x 45 x 45 bins): the bytes found in the file after every callback invocation are compared with the model\'s serialisation (correspondence); the real '
+      'system calls of the callback are recorded by an LD_PRELOAD interposer and compared with the model\'s operation list; the real process is killed before every '
+      'operation (quick: a spread) and inside writes at byte 1, the middle and the last but one, then the file is inspected and the run resumed from it; '
+      'non-trivial = text larger than the stream buffer', COMMON_ASSUMPTIONS +
+      ['POSIX: rename replaces atomically; a killed process keeps completed writes and a prefix of the write in progress; no power-loss model',
+       'the interposer sees libstdc++ file streams through fopen/write/writev/fclose and plain POSIX calls through open/openat/creat/write/close/rename/unlink'])
+def gen_C18(c, rng, tier):
+    for t in TYPES:
+        fmt = FMTS[t]
+        for kind in KINDS:
+            for size in ['small', 'medium', 'large']:
+                for _ in range(scale(tier, 1, 4)):
+                    s, info = oracles.c18_spec(rng, fmt, kind, size)
+                    c.add(t, 'run', s, classes=['kind_' + kind, 'size_' + size, 'type_' + fmt.name], nontrivial=(size == 'large'), info=info)
+
 # ------------------------------------------------------------------------------------------------
 def extra_checks(pid, rng, tier, st, cov):
     f = getattr(oracles, 'extra_' + pid, None)
